@@ -16,11 +16,11 @@
   _upgrade_chunk_info, _align_chunk_info on top of a prefix-list model of katsdptelstate views).
   Spec side: `specOrder`, "first defining namespace", `qualifies`.
 
-  One part of the English statement is false of the code: a *sensor* (mutable key) that is
-  defined in two namespaces is not necessarily taken from the most specific one, because the
-  sensor dict keeps the lexicographically last full key per short name
-  (`c18_sensor_most_specific_full_is_false`); it holds when a single namespace defines it
-  (`c18_sensor_most_specific_partial`).
+  Sensors (mutable keys) are registered under their short name and read through the view, so a
+  sensor defined in two namespaces is taken from the most specific one
+  (`c18_sensor_most_specific`; before the repair of C18-sensor-last-sorted-key in /repo the dict
+  kept the lexicographically last full key per short name and the statement held only when a single
+  namespace defined the sensor).
 -/
 import KatdalModel.Lemmas.Telstate
 open Np Telstate TelstateL
@@ -130,25 +130,30 @@ example : shortenKey [k "cb_l0_", k "cb_", k "l0_", k ""] (k "cb_y") = k "y" := 
 example : shortenKey [k "cb_l0_", k "cb_", k "l0_"] (k "other_y") = k "" := by decide
 example : shortenKey [k "cb_l0_", k "cb_", k "l0_"] (k "cb_") = k "" := by decide
 
-/-- A sensor whose short name comes from exactly one mutable key `key = p ++ name`, with `p` the most
-    specific namespace holding `name`, is read from that key. -/
-theorem c18_sensor_most_specific_partial (st : Store) (v : List Key) (keys : List Key) (name key : Key)
-    (hname : name ≠ [])
-    (honly : keys.filter (fun x => shortenKey v x = name) = [key])
-    (hread : Telstate.get st v key = Telstate.get st v name) :
+/-- **A sensor is taken from the most specific namespace that defines it**: whenever some mutable key shortens to
+    `name`, reading the sensor `name` is reading `name` through the view (first prefix in view order that holds it).
+    (Before the repair of C18-sensor-last-sorted-key in /repo this held only when a single namespace defined the
+    sensor: the dict kept the full key that came last in sorted order.) -/
+theorem c18_sensor_most_specific (st : Store) (v : List Key) (keys : List Key) (name : Key)
+    (hname : name ≠ []) (hex : ∃ key ∈ keys, shortenKey v key = name) :
     sensorRead st v keys name = Telstate.get st v name := by
-  simp [sensorRead, sensorKey, hname, honly, hread]
+  have : (keys.any fun k => decide (shortenKey v k = name)) = true := by
+    obtain ⟨key, hk, hs⟩ := hex
+    exact List.any_eq_true.mpr ⟨key, hk, by simpa using hs⟩
+  simp [sensorRead, sensorKey, hname, this]
 
-/-- Sensors defined in two namespaces: the dict keeps the lexicographically last full key, here the
-    stream namespace although the capture-block namespace is more specific. -/
-theorem c18_sensor_most_specific_full_is_false :
-    ¬ ∀ (st : Store) (v : List Key) (keys : List Key) (name : Key), name ≠ [] →
-        sensorRead st v keys name = Telstate.get st v name := by
-  intro h
-  have := h [(k "cb_s", .num 1), (k "l0_s", .num 2)] [k "cb_l0_", k "cb_", k "l0_", k ""]
-    [k "cb_s", k "l0_s"] (k "s") (by decide)
-  revert this
-  decide
+/-- a name no mutable key shortens to is not a sensor of the data set -/
+theorem c18_sensor_absent (st : Store) (v : List Key) (keys : List Key) (name : Key)
+    (hno : ∀ key ∈ keys, shortenKey v key ≠ name) : sensorRead st v keys name = none := by
+  have : (keys.any fun k => decide (shortenKey v k = name)) = false := by
+    apply List.any_eq_false.mpr
+    intro key hk
+    simpa using hno key hk
+  simp [sensorRead, sensorKey, this]
+
+-- two namespaces define the sensor: the capture-block one (more specific) answers
+example : sensorRead [(k "cb_s", .num 1), (k "l0_s", .num 2)] [k "cb_l0_", k "cb_", k "l0_", k ""]
+    [k "cb_s", k "l0_s"] (k "s") = some (.num 1) := by decide
 
 /-! ### defaults and overrides -/
 
